@@ -50,6 +50,17 @@ theorem total_handshake (s : St) :
   ⟨(tlsRecv_facts s _ _ rfl).np, (exchangeKey_facts s _ _ rfl).np, (getIDString_facts s _ _ rfl).1.np,
    (getStringMax_facts maxTokenLen s _ _ rfl).str.np⟩
 
+/-- **total and linear, the remaining length-prefixed handshake readers** — the Kerberos request
+    blob (code, length, data) and the optional raw fields of the token exchange's error-state
+    branches (`fieldLen`, then that many raw bytes): never a panic, and what they allocate is paid
+    for by bytes that arrived, whatever length the peer announces. (The other readers of these
+    sub-protocols are `getIDString`, `getToken`, capped strings and integers: above.) -/
+theorem total_linear_subprotocols (s : St) :
+    (krbRead s).1 ≠ .error .panic ∧ Linear 0 s (krbRead s).2 ∧
+    (rawField s).1 ≠ .error .panic ∧ Linear 0 s (rawField s).2 :=
+  ⟨(tlsRecv_facts s _ _ (krbRead_eq s).symm).np, linear_of (tlsRecv_facts s _ _ (krbRead_eq s).symm).law,
+   (rawField_facts s (rawField s).1 (rawField s).2 rfl).np, linear_of (rawField_facts s (rawField s).1 (rawField s).2 rfl).law⟩
+
 /-- **total, framing** — for every wire byte string (and every fuel), one frame, a complete
     message, a message read through `StartMessageRead`, and the shared-port hand-off header
     end in a value or an error, never a panic. -/
